@@ -318,6 +318,14 @@ def obligations(tier: str) -> List[dict]:
                 newtop=True, markers=True)
         add('h_reconfigure', 'reconfigure', 300, n=2, key='canonical',
             newtop=True, markers=False)
+        # top=None: the graph's own (explicit) top must be kept even when the
+        # key moves another node's triples to the front
+        for k in ('alphanumeric', 'canonical', 'none'):
+            add('h_reconfigure', 'reconfigure', 300, n=2, key=k,
+                newtop=False, markers=True)
+        for ops in OPS2:
+            add('h_reconfigure', 'reconfigure', 400, n=3, key='alphanumeric',
+                newtop=False, markers=True, i0_op=ops[0], i1_op=ops[1])
         for ops in OPS2:
             for r0 in range(len(RC_ROLES)):
                 add('h_reconfigure', 'reconfigure', 400,
@@ -344,6 +352,9 @@ def obligations(tier: str) -> List[dict]:
                 for ops in OPS2:
                     add('h_reconfigure', 'reconfigure', 3000, n=3, key=k,
                         newtop=True, markers=mk, i0_op=ops[0], i1_op=ops[1])
+                    add('h_reconfigure', 'reconfigure', 3000, n=3, key=k,
+                        newtop=False, markers=mk, i0_op=ops[0],
+                        i1_op=ops[1])
         for ops in OPS2:
             add('h_newtop_encode', 'encode new top', 3000, n=3,
                 i0_op=ops[0], i1_op=ops[1])
